@@ -30,8 +30,10 @@ class ReorderedLowLevelWCS(BaseWCSWrapper):
         if sorted(world_order) != list(range(wcs.world_n_dim)):
             raise ValueError(f'world_order should be a permutation of {list(range(wcs.world_n_dim))}')
         self._wcs = wcs
-        self._pixel_order = pixel_order
-        self._world_order = world_order
+        # Lists, so that they index numpy arrays axis-wise whatever iterable was given
+        # (a tuple would be read as one multi-dimensional index).
+        self._pixel_order = [int(idx) for idx in pixel_order]
+        self._world_order = [int(idx) for idx in world_order]
         self._pixel_order_inv = np.argsort(pixel_order)
         self._world_order_inv = np.argsort(world_order)
 
